@@ -1,7 +1,7 @@
 """C06 Every acknowledgement written is itself a complete, well-formed interchange."""
 import ast
 
-from ..core import Ob, Rule, AnalysisError, norm, KeyMaker
+from ..core import require_idiom, Ob, Rule, AnalysisError, norm, KeyMaker
 from ..cfg import path_of, must_facts, has
 from .. import astutil as A
 
@@ -322,8 +322,10 @@ def r6_997_counter(ctx):
     f = ctx.func('error_997', 'error_997_visitor.visit_root_post')
     txt = ast.unparse(f)
     ok = "'GE*%i*%s' % (self.st_loop_count, self.gs_seg.get_value('GS06'))" in txt
+    require_idiom(ok, 'c06.py:324')
     yield Ob('error_997:error_997_visitor.visit_root_post GE01 = st_loop_count, GE02 = GS06 written', ok, ctx.floc(f), '' if ok else 'GE construction changed')
     ok = "'IEA*%i*%s' % (self.gs_loop_count, self.isa_control_num)" in txt
+    require_idiom(ok, 'c06.py:326')
     yield Ob('error_997:error_997_visitor.visit_root_post IEA01 = gs_loop_count, IEA02 = ISA13 written', ok, ctx.floc(f), '' if ok else 'IEA construction changed')
     # ISA13 written = isa_control_num
     f = ctx.func('error_997', 'error_997_visitor.visit_root_pre')
